@@ -40,24 +40,22 @@ impl Stream for Repeat {
         Ok(self.0.clone())
     }
     fn pythonic_slice(&self, lo: Option<isize>, hi: Option<isize>) -> NRes<Seq> {
-        let lo = match lo {
-            Some(x) => {
-                if x < 0 {
-                    x - 1
-                } else {
+        let shift = |x: isize| -> NRes<isize> {
+            if x < 0 {
+                x.checked_sub(1).ok_or(NErr::index_error(format!(
+                    "Slice index out of bounds: {}",
                     x
-                }
+                )))
+            } else {
+                Ok(x)
             }
+        };
+        let lo = match lo {
+            Some(x) => shift(x)?,
             None => 0,
         };
         let hi = match hi {
-            Some(x) => {
-                if x < 0 {
-                    x - 1
-                } else {
-                    x
-                }
-            }
+            Some(x) => shift(x)?,
             None => -1,
         };
         Ok(match (lo < 0, hi < 0) {
